@@ -138,7 +138,7 @@ def qudit_gate(cirq, rng, dims):
     return cirq.MatrixGate(rand_unitary(rng, int(np.prod(dims))), qid_shape=tuple(dims))
 
 
-def random_unitary_circuit(cirq, rng, *, max_wires=5, qudits=False, max_ops=10, classical=False):
+def random_unitary_circuit(cirq, rng, *, max_wires=5, qudits=False, max_ops=10, classical=False, phases=False):
     """returns (circuit, qids) — all operations unitary; random moment structure"""
     n = rng.randint(1, max_wires)
     if qudits:
@@ -150,6 +150,10 @@ def random_unitary_circuit(cirq, rng, *, max_wires=5, qudits=False, max_ops=10, 
     qids = [cirq.LineQid(i, d) if d != 2 else cirq.LineQubit(i) for i, d in enumerate(dims)]
     ops = []
     for _ in range(rng.randint(0, max_ops)):
+        if phases and not classical and rng.random() < 0.12:
+            # an operation on no qubits: a global phase
+            ops.append(cirq.global_phase_operation(rng.choice([1j, -1, -1j, complex(math.cos(0.3), math.sin(0.3))])))
+            continue
         k = min(rng.choice([1, 1, 1, 2, 2, 2, 3]), n)
         targets = rng.sample(qids, k)
         tdims = [q.dimension for q in targets]
